@@ -189,6 +189,13 @@ ApplyQuota(q, after) ==
 \* invariant on recorded states: an observed budget is never below the configured minimum
 BudgetFloor == (last.has /\ inp.minp >= 0) => last.v >= Floor(inp)
 
+\* NOT part of any verdict (a stronger reading than the statement, kept for reference): after a round the BE root
+\* cpuset itself is off the protected CPUs.  The code does not guarantee it: a round that finds fewer eligible
+\* CPUs than budgeted applies nothing and BE keeps its previous cpuset (8 CPUs, old 0-7, an idle LSE pod owning
+\* 0-3, budget 5200m: target 6 > 4 eligible, BE stays on 0-7).  The statement speaks of "the CPU set derived from"
+\* the budget, and such a round derives none.
+BEOffProtected == be \cap Protected(inp) \cap CPUIds(inp) = {}
+
 (******************************* design level ******************************)
 (* calculateBESuppressCPUSetPolicy(cpus, P) : P = sequence of processors *)
 ProcLess(a, b)   == IF a.core = b.core THEN a.cpu < b.cpu ELSE a.core < b.core
